@@ -49,7 +49,7 @@ def run(cmd, cwd=None, timeout=600, limit=True, stdin=None, env=None):
     try:
         p = subprocess.Popen(cmd, cwd=cwd, stdout=subprocess.PIPE, stderr=subprocess.PIPE,
                              stdin=subprocess.PIPE if stdin is not None else subprocess.DEVNULL,
-                             preexec_fn=_limits if limit else os.setsid, text=True,
+                             preexec_fn=_limits if limit else os.setsid, text=True, errors='replace',
                              env=dict(os.environ, **env) if env else None)
     except FileNotFoundError as e:
         raise Undecided('tool missing: %s' % e)
